@@ -51,7 +51,16 @@ Ops3Toks(x) == <<T("id", "a", 0), T("op", x[1], 0)>> \o U(x[2]) \o <<T("id", "b"
                \o <<T("id", "c", 0), T("op", x[5], 0), T("id", "d", 0)>>
 NextOps3 == ~done /\ toks = <<>> /\ (\E x \in Ops3 : toks' = Ops3Toks(x)) /\ done' = TRUE /\ UNCHANGED <<need, depth, juxt, unary>>
 
-Next == IF Family = "ops3" THEN NextOps3 ELSE NextAll
+\* family unpar: a prefix operator applied to a parenthesised binary operation whose left operand is a
+\* number or a name, alone, after an operator, and before an operator:  u (A o1 B),  c o0 u (A o1 B),  u (A o1 B) o2 c
+UnParCore == {<<u, la, o1, lb>> : u \in Uns, la \in {T("num", "2", 2), T("id", "a", 0)}, o1 \in Ops, lb \in {T("id", "b", 0), T("num", "3", 3)}}
+CoreToks(x) == <<T("un", x[1], 0), T("lp", "(", 0), x[2], T("op", x[3], 0), x[4], T("rp", ")", 0)>>
+UnParStrings == {CoreToks(x) : x \in UnParCore}
+                \cup {<<T("id", "c", 0), T("op", o, 0)>> \o CoreToks(x) : x \in UnParCore, o \in Ops}
+                \cup {CoreToks(x) \o <<T("op", o, 0), T("id", "c", 0)>> : x \in UnParCore, o \in Ops}
+NextUnPar == ~done /\ toks = <<>> /\ (\E x \in UnParStrings : toks' = x) /\ done' = TRUE /\ UNCHANGED <<need, depth, juxt, unary>>
+
+Next == IF Family = "ops3" THEN NextOps3 ELSE IF Family = "unpar" THEN NextUnPar ELSE NextAll
 Spec == Init /\ [][Next]_vars
 Emit == done => PrintT(<<"CASE", ToJson([tokens |-> toks])>>)
 =============================================================================
